@@ -75,6 +75,9 @@ OPEN = [
     "proxy graphic DECODING (virtual entities) is not modelled: proxy data is proved to be kept as opaque tags only; binary DXF framing "
     "and value typing are C03; foreign content on implemented entities other than XRECORD / TABLE heads / ACAD_PROXY_ENTITY "
     "(XDATA, application groups, embedded objects of LINE, MTEXT, ...) is oracle-only (O1 hosts)",
+    "second cycle of the ENTITIES section as a whole (the modelspace / paperspace partition of the re-read records) and of BLOCKS is proved "
+    "per entity space only (entity_space_second_cycle), not composed with the linker and the layout decision; TABLES bodies are a parameter; "
+    "file_passthrough is not composed with C03's binary framing theorem (different tag types)",
     "storage_idempotent_any needs tieFree (reactor handles with pairwise different numeric values): CPython iterates a set of equal-key "
     "strings in hash order, which the model cannot predict",
 ]
@@ -634,6 +637,8 @@ def entityOrder : List EntityPart := {lean_list("." + t for t in entity_order)}
 def storageOrder : List StoragePart := {lean_list("." + t for t in storage_order)}
 def sectionOrder : List SectionPart := {lean_list("." + t for t in section_order)}
 
+/-- `types.BINARY_DATA`: group codes of binary chunks (310..319 proxy graphics / ACIS / thumbnails, 1004 XDATA) -/
+def binaryCodes : List Nat := {lean_list(str(c) for c in sorted(types.BINARY_DATA))}
 /-- `types.VALID_XDATA_GROUP_CODES` -/
 def validXdataCodes : List Nat := {lean_list(str(c) for c in sorted(types.VALID_XDATA_GROUP_CODES))}
 /-- every code 0..1099 with `types.is_pointer_code`, and `types.HANDLE_CODES` -/
